@@ -36,6 +36,7 @@ from liquid2.exceptions import LiquidSyntaxError
 from liquid2.exceptions import LiquidTypeError
 from liquid2.exceptions import UnknownFilterError
 from liquid2.expression import Expression
+from liquid2.limits import MAX_STR_INT
 from liquid2.limits import to_int
 from liquid2.unescape import quote_string
 from liquid2.unescape import unescape
@@ -688,6 +689,18 @@ class FilteredExpression(Expression):
         return FilteredExpression(left.token, left, filters)
 
 
+def _parse_integer_literal(token: Token) -> int:
+    """Return the exact value of an integer literal, possibly with an exponent."""
+    mantissa, _, exponent = token.value.lower().partition("e")
+    value = to_int(mantissa)
+    if exponent:
+        power = to_int(exponent)
+        if MAX_STR_INT and power > MAX_STR_INT:
+            raise LiquidSyntaxError("integer literal is too big", token=token)
+        value *= 10**power
+    return value
+
+
 def parse_primitive(env: Environment, token: TokenT) -> Expression:  # noqa: PLR0911
     """Parse _token_ as a primitive expression."""
     if is_token_type(token, TokenType.TRUE):
@@ -707,7 +720,7 @@ def parse_primitive(env: Environment, token: TokenT) -> Expression:  # noqa: PLR
         return Path(token, [token.value])
 
     if is_token_type(token, TokenType.INT):
-        return IntegerLiteral(token, to_int(float(token.value)))
+        return IntegerLiteral(token, _parse_integer_literal(token))
 
     if is_token_type(token, TokenType.FLOAT):
         return FloatLiteral(token, float(token.value))
@@ -1219,7 +1232,7 @@ def parse_boolean_primitive(  # noqa: PLR0912
         else:
             left = Path(token, [token.value])
     elif is_token_type(token, TokenType.INT):
-        left = IntegerLiteral(token, to_int(float(token.value)))
+        left = IntegerLiteral(token, _parse_integer_literal(token))
     elif is_token_type(token, TokenType.FLOAT):
         left = FloatLiteral(token, float(token.value))
     elif is_token_type(token, TokenType.DOUBLE_QUOTE_STRING):
